@@ -233,7 +233,11 @@ def clearStore (s : SState) : SState :=
 /-- the session part of `Client.cleanup` -/
 def cleanSess (s : SState) : SState := if s.cfg.clean then { s with sess := {} } else s
 
-def nextID (s : SState) : UInt16 × SState := (s.sess.nextID.1, { s with sess := s.sess.nextID.2 })
+/-- `Client.nextID` (client/client.go): the next packet id no stored outgoing packet uses — `NextID`,
+    repeated while `LookupPacket(Outgoing, id)` finds a packet, at most 65535 times; the id 0 stands for
+    `ErrPacketIDsExhausted` (`MemorySession.freshID`, Model/Session.lean; the step-level client model runs
+    the same loop label by label: `C09.allocation_is_freshID`) -/
+def nextID (s : SState) : UInt16 × SState := (s.sess.freshID.1, { s with sess := s.sess.freshID.2 })
 
 def dieObs (c : Client) (closeConn : Bool) : List Obs :=
   (if closeConn && !c.closed then [Obs.closed c.conn] else []) ++ [Obs.error .callback]
@@ -387,6 +391,9 @@ def supOnline (s : SState) (c : Client) (sp : Bool) : SState × List Obs :=
   else if c.st == CState.dead then
     -- ErrClientNotConnected; the client is closed without OfflineCallback
     failAttempt s [.online sp] .resubscribe
+  else if s.nextID.1 == 0 then
+    -- ErrPacketIDsExhausted (no cleanup inside the client); reported, the supervisor closes the client
+    failAttempt s.nextID.2 [.online sp] .resubscribe
   else if c.sendOk then
     (((s.nextID.2.put s.nextID.1 { resub := true }).setResub none).wait (.resubWait s.nextID.1),
      [.online sp, .sent c.conn (.subscribe s.resubList s.nextID.1)])
@@ -430,7 +437,7 @@ def applySubs (s : SState) : CmdKind → SState
   | .unsubscribe ts => ts.foldl delSub s
   | .publish _ => s
 
-/-- `NextID` (QoS 0 publishes use id 0) -/
+/-- `Client.nextID` (QoS 0 publishes use id 0) -/
 def allocID (s : SState) (k : CmdKind) : UInt16 × SState := if cmdNeedsID k then s.nextID else (0, s)
 
 /-- `SavePacket` for QoS ≥ 1 publishes -/
@@ -446,6 +453,11 @@ def clientCall (s : SState) (c : Client) (cmd : Cmd) : SState × List Obs :=
     leaveDispatcher (s.resolveCmd cmd.n .cancelled) [Obs.error (cmdSys cmd.kind)]
   else
     let id := (allocID s cmd.kind).1
+    if cmdNeedsID cmd.kind && id == 0 then
+      -- ErrPacketIDsExhausted: the client leaves everything as it is; error callback, the command future is
+      -- cancelled, the dispatcher returns and the supervisor closes the client
+      leaveDispatcher ((allocID s cmd.kind).2.resolveCmd cmd.n .cancelled) [Obs.error (cmdSys cmd.kind)]
+    else
     let s1 := saveOutgoing ((allocID s cmd.kind).2.put id {}) cmd.kind id
     if c.sendOk then
       if cmdQos0 cmd.kind then
